@@ -22,6 +22,10 @@ var (
 type SV struct {
 	Hex  string `json:"v"`
 	Mont bool   `json:"mont,omitempty"`
+	// Hist > 0: the scalar object held another value before and was already used (Bits, Encode, a
+	// multiplication) when the value is installed through mutator number Hist (see installers): object
+	// history must not matter.
+	Hist int `json:"hist,omitempty"`
 }
 
 // Value is the canonical integer the SV denotes.
@@ -33,8 +37,37 @@ func (s SV) Value() *big.Int {
 	return v
 }
 
-// Build constructs the scalar: canonical values through Decode, Montgomery patterns by writing limbs.
+// installers set a used scalar object to the value held by src, each through a different mutator.
+var installers = []func(dst, src *secp256k1.Scalar){
+	func(dst, src *secp256k1.Scalar) { dst.Set(src) },
+	func(dst, src *secp256k1.Scalar) { _ = dst.Decode(src.Encode()) },
+	func(dst, src *secp256k1.Scalar) { _ = dst.CSelect(1, dst, src) },
+	func(dst, src *secp256k1.Scalar) { _ = dst.CSelect(0, src, dst) },
+	func(dst, src *secp256k1.Scalar) { dst.Zero().Add(src) },
+	func(dst, src *secp256k1.Scalar) { dst.One().Multiply(src) },
+	func(dst, src *secp256k1.Scalar) { b, _ := src.MarshalBinary(); _ = dst.UnmarshalBinary(b) },
+	func(dst, src *secp256k1.Scalar) { _ = dst.DecodeHex(src.Hex()) },
+	func(dst, src *secp256k1.Scalar) { dst.Subtract(dst).Add(src) },
+	func(dst, src *secp256k1.Scalar) { _ = dst.CSelect(^uint64(0), dst, src) },
+	func(dst, src *secp256k1.Scalar) { copy(dst.S[:], src.S[:]) },
+}
+
+// NumInstallers is the number of object-history recipes.
+var NumInstallers = len(installers)
+
+// Build constructs the scalar: canonical values through Decode, Montgomery patterns by writing limbs; with
+// Hist > 0 the value is installed into an object that was used before.
 func (s SV) Build() *secp256k1.Scalar {
+	if s.Hist > 0 {
+		fresh := SV{Hex: s.Hex, Mont: s.Mont}.Build()
+		used := secp256k1.NewScalar().SetUInt64(0xdeadbeef)
+		_ = used.Bits()
+		_ = used.Encode()
+		_ = used.IsZero()
+		_ = used.IsOne() // (Element.Multiply uses the scalar through IsOne and Bits only)
+		installers[(s.Hist-1)%len(installers)](used, fresh)
+		return used
+	}
 	out := secp256k1.NewScalar()
 	v := gen.B(s.Hex)
 	if s.Mont {
@@ -43,7 +76,7 @@ func (s SV) Build() *secp256k1.Scalar {
 		return out
 	}
 	if err := out.Decode(ref.Bytes32(v)); err != nil {
-		panic("harness: cannot decode canonical scalar " + s.Hex + ": " + err.Error())
+		panic("Scalar.Decode rejected the canonical 32-byte encoding of " + s.Hex + " (a value < n): " + err.Error())
 	}
 	return out
 }
@@ -53,7 +86,11 @@ func SVGen() *rapid.Generator[SV] {
 	return rapid.Custom(func(t *rapid.T) SV {
 		v := gen.Int(ref.N).Draw(t, "sv")
 		mont := rapid.IntRange(0, 2).Draw(t, "mont") == 0
-		return SV{Hex: gen.H(v), Mont: mont}
+		sv := SV{Hex: gen.H(v), Mont: mont}
+		if gen.Chance(t, "hist", 1, 4) {
+			sv.Hist = 1 + gen.Pick(t, "installer", NumInstallers)
+		}
+		return sv
 	})
 }
 
@@ -86,3 +123,17 @@ func TestMain(m *testing.M) { gen.Main(m) }
 
 // TestReplay replays $VERIF_REPLAY.
 func TestReplay(t *testing.T) { gen.ReplayMain(t) }
+
+// hostileCaller does what the API allows any caller to do with values it was handed: it overwrites the slice
+// returned by Order and mutates elements and scalars returned by constructors. Every returned value is documented
+// (C15) to be fresh, so this must have no effect on later calls; it runs at the start of every case of the checks
+// below, so that a defect of this kind shows in every case and replays deterministically.
+func hostileCaller() {
+	o := secp256k1.Order()
+	for i := range o {
+		o[i] = 0
+	}
+	secp256k1.Base().Double().Negate()
+	secp256k1.NewElement().Base()
+	secp256k1.NewScalar().MinusOne()
+}
